@@ -47,6 +47,9 @@ def RNoise.block {nb bs : Nat} : RNoise α nb bs → Fin nb → Mat α bs bs
   | .shared R, _ => R
   | .perBlock R, i => Mat.blkCols R i
 
+/-- the `bs × (nb·bs)` row that repeats one block `nb` times (the per-block encoding of a shared block) -/
+def repBlocks {nb bs : Nat} (R0 : Mat α bs bs) : Mat α bs (nb * bs) := Mat.of (fun a p => R0 a (bmod p))
+
 /-- `inv_R`: the inverses of the diagonal blocks (one inversion, copied, when the block is shared) -/
 def RNoise.invBlocks {nb bs : Nat} (inv : InvFn α) : RNoise α nb bs → Vec (Mat α bs bs) nb
   | .shared R => let X := Mat.eval (inv bs R); Vec.of (fun _ => X)
